@@ -73,6 +73,7 @@ type SiteAssert struct {
 	Text  string
 	Props []string
 	After bool
+	Assume bool // assumed instead of proved (always listed)
 }
 
 type GhostAssign struct {
@@ -162,7 +163,7 @@ func (cs *ContractSet) forFunc(fn *ssa.Function) *FuncContract {
 
 var clauseKW = map[string]bool{"func": true, "type": true, "pure": true, "uf": true, "lemma": true, "ghost": true, "requires": true, "ensures": true,
 	"modifies": true, "decreases": true, "loop": true, "iterates": true, "concurrent": true, "props": true, "terminates": true,
-	"noinline": true, "assert": true, "axiom": true, "assumelocked": true, "ghostentry": true, "callback": true, "arith": true, "nonnil": true, "guards": true, "invariant": true, "latch": true, "params": true, "results": true, "trusted": true, "purefn": true}
+	"noinline": true, "assert": true, "assume": true, "axiom": true, "assumelocked": true, "ghostentry": true, "callback": true, "arith": true, "nonnil": true, "guards": true, "invariant": true, "latch": true, "params": true, "results": true, "trusted": true, "purefn": true}
 
 var tagRe = regexp.MustCompile(`^(\w+)\[([A-Z0-9, ]+)\]`)
 
@@ -396,7 +397,7 @@ func (cs *ContractSet) LoadContractFile(path string, pkgKey string) error {
 				return fail("%v", err)
 			}
 			cs.axioms = append(cs.axioms, &Axiom{Scope: pkgKey, Expr: e, Text: rest})
-		case "assert":
+		case "assert", "assume":
 			if curF == nil {
 				return fail("assert outside func block")
 			}
@@ -409,7 +410,7 @@ func (cs *ContractSet) LoadContractFile(path string, pkgKey string) error {
 				return fail("%v", err)
 			}
 			txt, _ := strconv.Unquote(`"` + m[2] + `"`)
-			curF.SiteAsserts = append(curF.SiteAsserts, &SiteAssert{Match: txt, Expr: e, Text: m[3], Props: props, After: m[1] == "after"})
+			curF.SiteAsserts = append(curF.SiteAsserts, &SiteAssert{Match: txt, Expr: e, Text: m[3], Props: props, After: m[1] == "after", Assume: kw == "assume"})
 		case "assumelocked":
 			if curF == nil {
 				return fail("assumelocked outside func block")
